@@ -174,8 +174,114 @@ Definition pobs_eqb (a b : pobs) : bool :=
 Definition host_injb (dir : list member) : bool :=
   bool_decide (Forall (λ x, Forall (λ y, mhost x = mhost y → mid x = mid y) dir) dir).
 
-(* the C20 predicate on a sequence of observations (claimed when no address
-   is shared by two nodes — otherwise GetByHost's choice depends on Go's map
-   iteration order) *)
+(** * Shared addresses: the choice made by GetByHost
+
+   When several members sit behind one address, which of them GetByHost
+   returns depends on Go's map iteration order.  The step is therefore also
+   given with the choice as a parameter: [Some i] names the member that goes
+   (used when i is a member at that address; otherwise, and for [None], the
+   canonical choice of [get_by_host]).  In the correspondence check the
+   choice is read off the implementation's own observation (the id that
+   disappeared from the member list), so the comparison stays exact without
+   depending on the iteration order. *)
+Definition get_by_host_ch (ch : option nat) (s : pstate) (a : nat) : option member :=
+  match ch with
+  | Some i =>
+      match s !! i with
+      | Some m => if decide (mhost m = a) then Some m else get_by_host s a
+      | None => get_by_host s a
+      end
+  | None => get_by_host s a
+  end.
+
+Definition pstep_ch (ch : option nat) (s : pstate) (msg : pmsg) : pstate * list out :=
+  match msg with
+  | LeaveAddr a =>
+      match get_by_host_ch ch s a with
+      | Some m => let s' := remove_member s m in (s', [ToAgent (slice s')])
+      | None => (s, [])
+      end
+  | _ => pstep s msg
+  end.
+
+Definition hd_choice (chs : list (option nat)) : option nat :=
+  match chs with ch :: _ => ch | [] => None end.
+
+Fixpoint prun_ch (s : pstate) (hist : list pmsg) (chs : list (option nat)) : list (pstate * list out) :=
+  match hist with
+  | [] => []
+  | msg :: hist' => let r := pstep_ch (hd_choice chs) s msg in r :: prun_ch r.1 hist' (tail chs)
+  end.
+Fixpoint pafter_ch_from (s : pstate) (hist : list pmsg) (chs : list (option nat)) : pstate :=
+  match hist with
+  | [] => s
+  | msg :: hist' => pafter_ch_from (pstep_ch (hd_choice chs) s msg).1 hist' (tail chs)
+  end.
+Definition pafter_ch (self : member) (hist : list pmsg) (chs : list (option nat)) : pstate :=
+  pafter_ch_from (pinit self) hist chs.
+Definition model_prun_ch (self : member) (hist : list pmsg) (chs : list (option nat)) : list pobs :=
+  out_obs (pstart self).1 (pstart self).2 :: ((λ r, out_obs r.1 r.2) <$> prun_ch (pinit self) hist chs).
+
+(* k reports for one address, with any choices *)
+Definition behind (a : nat) (s : pstate) : pstate := filter (λ kv, mhost kv.2 = a) s.
+Definition elsewhere (a : nat) (s : pstate) : pstate := filter (λ kv, mhost kv.2 ≠ a) s.
+Fixpoint leaves_ch (s : pstate) (a : nat) (chs : list (option nat)) : pstate * list (list out) :=
+  match chs with
+  | [] => (s, [])
+  | ch :: chs' =>
+      let r := pstep_ch ch s (LeaveAddr a) in
+      let r' := leaves_ch r.1 a chs' in (r'.1, r.2 :: r'.2)
+  end.
+
+(* the id that disappeared: the one element of [ids] missing from the
+   observed member list, if there is exactly one *)
+Definition choice_of (ids : list nat) (o : pobs) : option nat :=
+  match filter (λ i, i ∉ p_list o) ids with [i] => Some i | _ => None end.
+Definition hd_choice_of (ids : list nat) (os : list pobs) : option nat :=
+  match os with o :: _ => choice_of ids o | [] => None end.
+
+(* the model driven by the choices visible in a sequence of observations *)
+Fixpoint prun_driven (s : pstate) (hist : list pmsg) (os : list pobs) : list pobs :=
+  match hist with
+  | [] => []
+  | msg :: hist' =>
+      let r := pstep_ch (hd_choice_of (sids s) os) s msg in
+      out_obs r.1 r.2 :: prun_driven r.1 hist' (tail os)
+  end.
+Definition model_prun_driven (self : member) (hist : list pmsg) (os : list pobs) : list pobs :=
+  out_obs (pstart self).1 (pstart self).2 :: prun_driven (pinit self) hist (tail os).
+
+(* the id ↦ address reference with the same parameter: the chosen id goes if
+   it is at that address; otherwise everybody at that address goes (there is
+   at most one when addresses are not shared) *)
+Definition hstep_ch (ch : option nat) (S : hstate) (msg : pmsg) : hstate * pobs :=
+  match msg with
+  | LeaveAddr a =>
+      let S' := match ch with
+                | Some i => if decide (S !! i = Some a) then delete i S
+                            else filter (λ kv, kv.2 ≠ a) S
+                | None => filter (λ kv, kv.2 ≠ a) S
+                end in
+      (S', {| p_agent := if decide (S' = S) then [] else [hids S']; p_reply := None;
+              p_list := hids S'; p_panic := false |})
+  | _ => hstep S msg
+  end.
+Fixpoint hrun_driven (S : hstate) (hist : list pmsg) (os : list pobs) : list pobs :=
+  match hist with
+  | [] => []
+  | msg :: hist' =>
+      let r := hstep_ch (hd_choice_of (hids S) os) S msg in
+      r.2 :: hrun_driven r.1 hist' (tail os)
+  end.
+Definition spec_prun_driven (self : member) (hist : list pmsg) (os : list pobs) : list pobs :=
+  {| p_agent := [hids (hinit self)]; p_reply := None; p_list := hids (hinit self); p_panic := false |}
+  :: hrun_driven (hinit self) hist (tail os).
+
+(* the C20 predicate on a sequence of observations: they are what the
+   id ↦ address reference produces when, at each unreachable report, the
+   member that the observation shows disappearing is the one chosen (it must
+   be at the reported address, else the reference removes everybody there
+   and the comparison fails; with nobody or one member there the choice is
+   forced) *)
 Definition poracle_on (self : member) (hist : list pmsg) (os : list pobs) : bool :=
-  if host_injb (directory self hist) then all2 pobs_eqb (spec_prun self hist) os else true.
+  all2 pobs_eqb (spec_prun_driven self hist os) os.
